@@ -9,7 +9,7 @@ for meta in sorted(glob.glob(os.path.join(VERIF, "seeded", "C*", "meta.json"))):
     d = os.path.dirname(meta)
     prop = m["breaks_property"]
     props = "all" if "--all-props" in sys.argv else prop
-    p = subprocess.run([os.path.join(VERIF, "tools", "try_patch.py"), os.path.join(d, "patch.diff"), "--props", props], stdout=subprocess.PIPE, stderr=subprocess.STDOUT, text=True)
+    p = subprocess.run([os.path.join(VERIF, "tools", "try_patch.py"), os.path.join(d, "patch.diff"), "--props", props], stdout=subprocess.PIPE, stderr=subprocess.STDOUT, text=True, env=os.environ)
     last = [l for l in p.stdout.splitlines() if l.startswith("{")]
     fired = json.loads(last[-1])["fired"] if last else []
     ok = prop in fired
